@@ -22,4 +22,4 @@ Deliverables, all inside {wt}/SEED/ (create the directory):
   1. patch.diff — `git -C {wt} diff` of your source change only (no test changes, nothing under SEED/).
   2. A demonstration that FAILS with your change and PASSES without it: preferably a small standalone Rust program or test in SEED/demo/ (its own Cargo.toml with `path = "{wt}/<crate>"` dependencies plus a `[patch.crates-io]` section redirecting the dmntk-* crates it needs to `{wt}/<crate>` paths and an empty `[workspace]` table, copy {wt}/Cargo.lock next to it, build with `cargo run --offline` or `cargo test --offline`), or, if simpler, a new #[test] function given as a separate patch SEED/demo_test.diff. Include SEED/run_demo.sh that runs it and exits non-zero when the property is violated.
   3. meta.json — {{"property": "{pid}", "summary": one sentence, "files": [...], "needs_to_manifest": what specific input/sequence/interleaving exposes it, "existing_tests": the command you ran and its pass/fail counts before and after, "demo": how you ran the demonstration and what it printed before and after}}.
-{extra}Verify all of it yourself: suite before/after, demo before/after (use `git stash` or apply/revert the patch). Leave the worktree WITH the change applied. In your final message give the summary, the diff and the verification results. Keep the change minimal (a few lines).""")
+{extra}Verify all of it yourself: suite before/after, demo before/after (switch between the two states with `git apply -R SEED/patch.diff` / `git apply SEED/patch.diff`; do NOT use `git stash`: all scratch worktrees of this repository share one stash stack and other agents work in theirs at the same time). Leave the worktree WITH the change applied. In your final message give the summary, the diff and the verification results. Keep the change minimal (a few lines).""")
